@@ -939,6 +939,9 @@ func genPriceMove(g *G) *Op {
 		assets = []string{"USDC", "USDT"}
 	}
 	a := assets[g.Pick("passet", len(assets))]
+	if a == "ELYS" && g.W.Scenario.PoolPricedElys {
+		a = "ATOM" // the native token has no feed in this world
+	}
 	var cur sdkmath.LegacyDec
 	for _, d := range g.W.Scenario.Denoms {
 		if displayOf(d) == a {
@@ -1201,12 +1204,24 @@ func genSpotOrderCreate(g *G) *Op {
 	}
 	price := g.priceOf(other)
 	if !price.IsPositive() {
+		price = g.poolSpotPrice(other) // an asset without a feed is priced by its pool
+	}
+	if !price.IsPositive() {
 		price = sdkmath.LegacyOneDec()
 	}
 	ot := []tstypes.SpotOrderType{tstypes.SpotOrderType_STOPLOSS, tstypes.SpotOrderType_LIMITSELL, tstypes.SpotOrderType_LIMITBUY, tstypes.SpotOrderType_MARKETBUY}[g.Pick("sot", 4)]
 	rate := price.MulInt64(int64(g.Int("ratepct", 50, 150))).QuoInt64(100)
-	if g.Int("near", 0, 2) == 0 {
+	switch g.Int("near", 0, 3) {
+	case 0:
 		rate = price.MulInt64(int64(g.Int("ratenear", 99, 101))).QuoInt64(100)
+	case 1:
+		// a hair's breadth from the market: 1e-3 .. 1e-8 below or above it
+		eps := sdkmath.LegacyNewDecWithPrec(1, int64(g.Int("ratehair", 3, 8)))
+		if g.Bool("ratehairup") {
+			rate = price.Mul(sdkmath.LegacyOneDec().Add(eps))
+		} else {
+			rate = price.Mul(sdkmath.LegacyOneDec().Sub(eps))
+		}
 	}
 	var amount sdk.Coin
 	var target string
@@ -1220,6 +1235,29 @@ func genSpotOrderCreate(g *G) *Op {
 	}
 	return &Op{Signer: u, Kind: "tradeshield.create_spot", Msg: &tstypes.MsgCreateSpotOrder{OrderType: ot,
 		OrderPrice: tstypes.OrderPrice{BaseDenom: other, QuoteDenom: ptypes.BaseCurrency, Rate: rate}, OrderAmount: amount, OwnerAddress: u.Addr.String(), OrderTargetDenom: target}}
+}
+
+// poolSpotPrice: spot price (in base-currency units per unit) of a denom in the first constant-product pool that holds
+// it against the base currency – the price the chain falls back to for an asset without an oracle feed.
+func (g *G) poolSpotPrice(denom string) sdkmath.LegacyDec {
+	for _, p := range g.S.Pools {
+		if p.PoolParams.UseOracle {
+			continue
+		}
+		var a, b *ammtypes.PoolAsset
+		for i := range p.PoolAssets {
+			switch p.PoolAssets[i].Token.Denom {
+			case denom:
+				a = &p.PoolAssets[i]
+			case ptypes.BaseCurrency:
+				b = &p.PoolAssets[i]
+			}
+		}
+		if a != nil && b != nil && a.Token.Amount.IsPositive() && b.Token.Amount.IsPositive() && a.Weight.IsPositive() && b.Weight.IsPositive() {
+			return b.Token.Amount.ToLegacyDec().Quo(b.Weight.ToLegacyDec()).Quo(a.Token.Amount.ToLegacyDec().Quo(a.Weight.ToLegacyDec()))
+		}
+	}
+	return sdkmath.LegacyZeroDec()
 }
 
 func (g *G) spotOrder() *tstypes.SpotOrder {
